@@ -58,3 +58,38 @@ def deductive(rep: Report, prop: str, funcs: list[str], contracts_mod: str, incl
         rep.extra.setdefault("paths", {})[q] = r.paths
         rep.extra.setdefault("source_sha", {})[q] = r.sha
     return results
+
+
+# ---------------------------------------------------------------------------------------------------- bounded helpers
+from . import bounded as _b  # noqa: E402
+
+QUICK_CFGS = ["commonmark", "js-default", "cm+table+strike"]
+ALL_CFGS = ["commonmark", "js-default", "zero", "default", "cm+table+strike", "cm+typo", "cm-heading", "cm-code", "cm-maxnest1", "cm-maxnest2", "cm+defs", "js+breaks+xhtml0"]
+
+
+def lines_universe(rep, check, tier, function, contract, cfgs=None, wrapped=True, rule="distinct token-stream signatures (type, level, map)", quick_k=2, thorough_k=3, **kw):
+    k = quick_k if tier == "quick" else thorough_k
+    cfgs = cfgs or (QUICK_CFGS if tier == "quick" else ALL_CFGS)
+    if tier != "quick" and k >= 3 and len(cfgs) > 4:
+        cfgs = cfgs[:4]
+    b = _b.run(check, "lines", k, cfgs, function, contract, "bounded-exhaustive line universe (DESIGN Appendix A); " + rule, wrapped=wrapped, **kw)
+    rep.bounded.append(b)
+    return b
+
+
+def inline_universe(rep, check, tier, function, contract, cfgs=None, rule="distinct child-type sequences", quick_k=2, thorough_k=3, **kw):
+    k = quick_k if tier == "quick" else thorough_k
+    cfgs = cfgs or ["commonmark", "cm+table+strike"]
+    b = _b.run(check, "inline", k, cfgs, function, contract, "bounded-exhaustive inline fragment universe; " + rule, **kw)
+    rep.bounded.append(b)
+    return b
+
+
+def gen_universe(rep, check, gen, tier, function, contract, cfgs, rule, universe, **kw):
+    b = _b.run(check, "gen", 0, cfgs, function, contract, rule, gen=gen, gen_args=(tier,), universe=universe, bound=f"tier={tier}", **kw)
+    rep.bounded.append(b)
+    return b
+
+
+STD_TRUST = ["pyvc (vf/), z3 5.1.0, cvc5 1.0.3 on z3 unknowns", "Python semantics as listed in DESIGN.md 2.4",
+             "bounded stand-ins are labelled bounded and never counted in obligations/discharged"]
